@@ -1013,6 +1013,9 @@ func (x *FnCtx) enterLoop(fr *Frame, st *State, li *loopInfo, pre **State, decr 
 	// establish invariants
 	ec := &EvalCtx{x: x, fn: fr.fn, pkg: pkgOf(fr.fn), cur: st, old: fr.entry, params: x.frameParams(fr), frame: fr, oldA: fr.entry.heap.A}
 	for i, inv := range ls.Invariants {
+		if !x.eng.clauseActive(inv) {
+			continue
+		}
 		g, facts := ec.boolWithFacts(inv.E)
 		if ec.err != nil {
 			x.errs = append(x.errs, fmt.Sprintf("%s invariant %d: %v", name, i+1, ec.err))
@@ -1054,6 +1057,9 @@ func (x *FnCtx) enterLoop(fr *Frame, st *State, li *loopInfo, pre **State, decr 
 	// assume invariants
 	ec2 := &EvalCtx{x: x, fn: fr.fn, pkg: pkgOf(fr.fn), cur: h, old: fr.entry, params: x.frameParams(fr), frame: fr, oldA: fr.entry.heap.A}
 	for _, inv := range ls.Invariants {
+		if !x.eng.clauseActive(inv) {
+			continue
+		}
 		g, facts := ec2.boolWithFacts(inv.E)
 		if ec2.err != nil {
 			ec2.err = nil
@@ -1089,6 +1095,9 @@ func (x *FnCtx) backEdge(fr *Frame, st *State, li *loopInfo, pre *State, decr []
 	name := fmt.Sprintf("%sloop%d", fr.prefix, li.ord)
 	ec := &EvalCtx{x: x, fn: fr.fn, pkg: pkgOf(fr.fn), cur: st, old: fr.entry, params: x.frameParams(fr), frame: fr, oldA: fr.entry.heap.A}
 	for i, inv := range ls.Invariants {
+		if !x.eng.clauseActive(inv) {
+			continue
+		}
 		g, facts := ec.boolWithFacts(inv.E)
 		if ec.err != nil {
 			ec.err = nil
